@@ -494,6 +494,17 @@ def render(f):
     lines.append("def lattice : Lattice :=\n  { rows := latticeRows, gtm := latticeGtm,\n    " +
                  ", ".join(f"{k} := {v}" for k, v in sp.items()) + " }")
     lines.append("")
+    lines.append("/- Row ids by name (for witnesses and examples). -/")
+    lines.append("namespace Id")
+    used = set()
+    for i, r in enumerate(f["rows"]):
+        ident = "i_" + "".join(ch if (ch.isalnum() and ch.isascii()) else "_" for ch in r["name"])
+        while ident in used:
+            ident += "_"
+        used.add(ident)
+        lines.append(f"def {ident} : Nat := {i}")
+    lines.append("end Id")
+    lines.append("")
     lines.append("end Typelib.Gen")
     return "\n".join(lines) + "\n"
 
